@@ -151,22 +151,25 @@ def check(ctx: Ctx, rep: Report):
 def r2(ctx: Ctx, rep: Report, fams):
     fam = next(f for f in fams.values() if f.kind == "aa55")
     fn = fam.validator
-    # how is the response type read: signedness of the int.from_bytes over data[lb-2:lb]
+    # how is the response type read: signedness of the big-endian word over data[lb-2:lb] (int.from_bytes or struct, symbolic)
     signed = None
+    sym0 = Sym.for_function(ctx.prog, fn)
+    want_slice = ("slice", ("var", data_param(fam)), Lin.of_const(fam.lb - 2), Lin.of_const(fam.lb))
     for n in ast.walk(fn.node):
-        if isinstance(n, ast.Call) and norm(n.func) == "int.from_bytes" and n.args and isinstance(n.args[0], ast.Subscript) \
-                and isinstance(n.args[0].slice, ast.Slice):
-            sl = n.args[0].slice
-            try:
-                lo = ctx.prog.consteval(sl.lower, fn.module) if sl.lower is not None else None
-                hi = ctx.prog.consteval(sl.upper, fn.module) if sl.upper is not None else None
-            except NotConst:
-                continue
-            if (lo, hi) == (fam.lb - 2, fam.lb):
-                signed = False
-                for k in n.keywords:
-                    if k.arg == "signed":
-                        signed = bool(ctx.prog.consteval(k.value, fn.module))
+        if not isinstance(n, ast.Call):
+            continue
+        try:
+            t = sym0.lin(n).single_term()
+        except Exception:
+            t = None
+        cands = []
+        if t is not None and t[0] == "tuple":
+            cands = [x.single_term() if isinstance(x, Lin) else x for x in t[1]]
+        elif t is not None:
+            cands = [t]
+        for c in cands:
+            if c is not None and c[0] == "int" and c[1] == want_slice and c[2] == "big":
+                signed = bool(c[3])
     if signed is None:
         raise AnalysisError("response type read data[%d:%d] not found in %s" % (fam.lb - 2, fam.lb, fn.short))
     if len(fam.response_types) < 3:
